@@ -43,6 +43,34 @@ def threshold_cases(draw):
             "pres": draw(st.sampled_from(PRES)), "nseed": draw(st.integers(0, 5)), "profile": "class-thresholds"}
 
 
+@st.composite
+def larger_cases(draw):
+    """15-80 items, so that a dozen or several dozen bins are covered (block-wise bookkeeping, buffers that grow, the last bin of a block)."""
+    alg = draw(st.sampled_from(cases.COVERERS))
+    C = draw(st.sampled_from([5, 10, 12, 20, 30, 100]))
+    n = draw(st.integers(15, 80))
+    style = draw(st.sampled_from(["uniform", "small", "big", "exact-fills", "all-equal"]))
+    seed = draw(st.integers(0, 2 ** 40))
+    if style == "uniform":
+        values = S.splitmix(seed, n, 1, C)
+    elif style == "small":
+        values = S.splitmix(seed, n, 1, max(1, C // 3))
+    elif style == "big":
+        values = S.splitmix(seed, n, max(1, C // 2), 2 * C)
+    elif style == "exact-fills":
+        values = []
+        for i in range(n // 2):
+            a = 1 + S.splitmix(seed + i, 1, 0, C - 2)[0] if C > 2 else 1
+            values += [a, C - a]
+        keys = S.splitmix(seed + 99, len(values), 0, 2 ** 30)
+        values = [values[i] for i in sorted(range(len(values)), key=lambda i: (keys[i], i))]
+    else:
+        values = [draw(st.sampled_from([1, C // 2 or 1, C, C + 1, 2]))] * n
+    values = [v for v in values if v >= 1] or [1]
+    return {"alg": alg, "values": values, "binsize": C, "pres": draw(st.sampled_from(PRES)), "nseed": draw(st.integers(0, 5)),
+            "profile": "larger-" + style}
+
+
 def legs(tier):
     return [
         Leg("corpus", evaluate, "committed regression inputs", corpus=common.load_corpus(PROP),
@@ -55,6 +83,8 @@ def legs(tier):
             valid=cases.valid_covering_case, floor=0.15),
         Leg("thresholds", evaluate, "hypothesis: values at binsize/2, binsize/3 (+-1) for 12 bin sizes; same rule",
             strategy=threshold_cases(), n_quick=2500, n_thorough=50000, valid=cases.valid_covering_case, floor=0.15),
+        Leg("larger", evaluate, "hypothesis: 15-80 positive ints (uniform, small, big, exact fills, all equal) so that many bins are covered; same oracle and rule",
+            strategy=larger_cases(), n_quick=2500, n_thorough=50000, valid=cases.valid_covering_case, floor=0.1),
     ]
 
 
